@@ -180,7 +180,8 @@ fn run_case(case: &Value) -> Value {
 /// (third element of a step: key ops); "kbirq" selects `TimerContext::set_keyboard_irq_enabled`.
 /// Observation after each step:
 /// [cycle_count, ISR, next_mti, next_sti, halted, pc, in_interrupt, irq_total, in_interrupt before the step,
-///  pc before the step].
+///  pc before the step, instructions asked of this `step` call].
+/// With "chunks" (round 4) a whole chunk of n instructions is ONE `CoreRuntime::step(n)` call.
 fn look(rt: &CoreRuntime) -> Vec<Value> {
     let isr = rt.memory.read_internal_byte(ISR).unwrap_or(0);
     vec![
@@ -250,7 +251,25 @@ fn run_machine(case: &Value) -> Value {
     let mut obs: Vec<Value> = Vec::new();
     let empty = Vec::new();
     let steps = case.get("steps").and_then(|v| v.as_array()).unwrap_or(&empty);
-    for st in steps {
+    // "chunks": [n1, n2, ...] (optional, sum = number of steps): the host executes n_i instructions with ONE
+    // `CoreRuntime::step(n_i)` call (the bulk entry point the real runners use); host actions are those of the
+    // first step of the chunk (the Python side plans chunks so that no other step of a chunk carries any) and
+    // there is one observation per chunk.  Without "chunks" every step is its own `step(1)` call.
+    let chunks: Option<Vec<usize>> = case.get("chunks").and_then(|v| v.as_array()).map(|a| {
+        a.iter()
+            .map(|x| (x.as_u64().unwrap_or(1) as usize).max(1))
+            .collect()
+    });
+    let mut k: usize = 0;
+    let mut ci: usize = 0;
+    while k < steps.len() {
+        let st = &steps[k];
+        let n = match chunks.as_ref() {
+            Some(c) => c.get(ci).copied().unwrap_or(1).min(steps.len() - k),
+            None => 1,
+        };
+        k += n;
+        ci += 1;
         // st = [clear_mask, action]   action: 0 none, 1 snapshot round trip, 2 machine reset
         let clear = st.get(0).and_then(|v| v.as_u64()).unwrap_or(0) as u8;
         let action = st.get(1).and_then(|v| v.as_u64()).unwrap_or(0);
@@ -315,12 +334,13 @@ fn run_machine(case: &Value) -> Value {
         }
         let in_before = rt.timer.in_interrupt;
         let pc_before = rt.state.pc();
-        if let Err(e) = rt.step(1) {
+        if let Err(e) = rt.step(n) {
             return json!({"error": format!("step: {e}"), "obs": obs});
         }
         let mut o = look(&rt);
         o.push(json!(in_before));
         o.push(json!(pc_before));
+        o.push(json!(n));
         obs.push(Value::Array(o));
     }
     json!({"obs": obs})
